@@ -1,5 +1,5 @@
 (* C19 -- proofs about the loader model (Model/Modules.v) against Model/ModulesSpec.v. *)
-From Aelys Require Import Base.Tactics Model.Modules Model.ModulesSpec Model.ModulesObs.
+From Aelys Require Import Base.Tactics Extracted.ModulesTables Model.Modules Model.ModulesSpec Model.ModulesObs.
 Local Open Scope N_scope.
 
 (* ---------------------------------------------------------------- basics *)
@@ -47,13 +47,16 @@ Proof.
   destruct (is_prefix r c); [| discriminate]. intro H; inversion H; subst; eauto.
 Qed.
 
-Lemma resolve_in_find : forall fs d p f, resolve_in fs d p = RFound f -> exists m, find_file fs f = Some m.
+Lemma resolve_pats_find : forall fs pats d p f, resolve_pats fs pats d p = RFound f -> exists m, find_file fs f = Some m.
 Proof.
-  unfold resolve_in; intros fs d p f.
-  destruct (try_path fs d (canon fs (d ++ p))) eqn:E1; try discriminate.
-  - intro H; inversion H; subst. eapply try_path_find; eauto.
-  - apply try_path_find.
+  intros fs pats; induction pats as [|pat r IH]; intros d p f; cbn [resolve_pats]; [discriminate|].
+  destruct (try_path fs d (canon fs (pattern_path pat d p))) eqn:E1; try discriminate.
+  - intro H; inversion H; subst. eapply try_path_find. exact E1.
+  - apply IH.
 Qed.
+
+Lemma resolve_in_find : forall fs d p f, resolve_in fs d p = RFound f -> exists m, find_file fs f = Some m.
+Proof. intros fs d p f. apply resolve_pats_find. Qed.
 
 Lemma search_find : forall fs r b p f, search fs r b p = Some f -> exists m, find_file fs f = Some m.
 Proof.
@@ -312,11 +315,25 @@ Definition lres_spec (cur : fpath) (i : import) : lres :=
   | None => lres_of i
   end.
 
+(* what has run when an error is raised: still at most once, only reachable files, dependencies first *)
+Definition errinv (tr : list event) : Prop :=
+  let t := map ev_file tr in
+  NoDup t /\ (forall f, In f t -> reachable fs E f) /\ postorder fs E t.
+
 Definition vpost (cur : fpath) (i : import) (st : lstate) (r : res (lstate * lres)) : Prop :=
   match r with
   | Ok (st', lr) => frame st st' /\ lr = lres_spec cur i /\ (is_std (i_path i) = false -> loaded_as cur i st')
-  | _ => True
+  | Err _ tr => errinv tr
+  | Fuel => True
   end.
+
+Lemma inv_errinv : forall st, inv st -> errinv (events st).
+Proof.
+  intros st Hinv. split; [apply (v_tnodup _ Hinv)|]. split; [| apply (v_post _ Hinv)].
+  intros f Hf. destruct (v_towner _ Hinv f Hf) as (Hk & _). unfold has_key in Hk.
+  destruct (lookup f (loaded st)) as [info|] eqn:Hl; [| contradiction].
+  destruct (v_key _ Hinv _ _ Hl) as (f' & Hr' & He'). eapply r_step; eauto.
+Qed.
 
 Definition vgood (ld : loader) : Prop :=
   forall cur m i st, reachable fs E cur -> find_file fs cur = Some m -> In i (m_imports m) ->
@@ -388,15 +405,28 @@ Proof.
     + intros (x & Hx & Hq). apply in_app_or in Hx as [Hx|[<-|[]]]; [left; eauto | right; exact Hq].
 Qed.
 
-(* the name sets after one more import, for the module loop (contrib_mod) *)
-Lemma contrib_mod_spec : forall f done acc j ld g fm info mg,
+(* the grant tables taken from needs.rs / compile.rs are the documented ones *)
+Definition documented_grants (tbl : form_kind -> grant) : Prop :=
+  tbl KModule = GExports /\ tbl KAlias = GNone /\ tbl KSymbols = GSymbols /\ tbl KWildcard = GExports.
+Lemma entry_grant_documented : documented_grants entry_grant.
+Proof. repeat split; reflexivity. Qed.
+Lemma module_grant_documented : documented_grants module_grant.
+Proof. repeat split; reflexivity. Qed.
+
+(* the name sets after one more import, for any loop that uses a documented grant table *)
+Lemma contrib_names_spec : forall tbl f done acc j ld g fm info mg,
+  documented_grants tbl ->
   names_spec f done acc ->
   meaning fs root f j = Some (g, fm) -> lookup g ld = Some info -> mi_exports info = pub_names mg ->
   find_file fs g = Some mg -> (forall l, i_form j = FSymbols l -> l <> []) ->
   names_spec f (done ++ [j])
-    (contrib_mod acc j (lres_of {| i_path := i_path j; i_form := fm |}) (module_for fs root (dir_of f) j ld)).
+    (let acc1 := add_lres acc (lres_of {| i_path := i_path j; i_form := fm |}) in
+     match module_for fs root (dir_of f) j ld with
+     | Some inf => (fst acc1, granted_names (tbl (kind_of (i_form j))) j inf ++ snd acc1)
+     | None => acc1
+     end).
 Proof.
-  intros f done acc j ld g fm info mg Hs Hmean Hl He Hg Hne.
+  intros tbl f done acc j ld g fm info mg (T1 & T2 & T3 & T4) Hs Hmean Hl He Hg Hne.
   destruct (meaning_cases _ _ _ _ _ _ Hmean) as (Hstd & _ & [[Hd ->]|[Hd ->]]).
   - (* the path names a module *)
     assert (HG : granted_bare fs root f j =
@@ -405,8 +435,9 @@ Proof.
     assert (HQ : granted_qualifier fs root f j =
                  match i_form j with FModule | FWildcard => Some (last_seg (i_path j)) | FAlias a => Some a | FSymbols _ => None end).
     { unfold granted_qualifier. rewrite Hstd, Hmean. destruct (i_form j); reflexivity. }
-    unfold contrib_mod, module_for. rewrite Hd, Hl, He. unfold lres_of. cbn [i_form i_path].
-    destruct (i_form j) as [|a|l|] eqn:Ef; cbn [add_lres fst snd];
+    unfold module_for. rewrite Hd, Hl. unfold lres_of. cbn [i_form i_path].
+    destruct (i_form j) as [|a|l|] eqn:Ef; cbn [add_lres fst snd kind_of]; rewrite ?T1, ?T2, ?T3, ?T4;
+      cbn [granted_names]; rewrite ?Ef, ?He;
       apply (names_spec_snoc _ done acc j _ _ Hs); rewrite ?HG, ?HQ; clear HG HQ;
       intro x; cbn [In]; rewrite ?in_app_iff; cbn [In].
     all: try solve [iff_tac].
@@ -416,8 +447,19 @@ Proof.
     { unfold granted_bare. rewrite Hmean, Hg. reflexivity. }
     assert (HQ : granted_qualifier fs root f j = None).
     { unfold granted_qualifier. rewrite Hstd, Hmean. reflexivity. }
-    unfold contrib_mod, module_for. rewrite Hd. unfold lres_of. cbn [i_form i_path hd add_lres fst snd].
+    unfold module_for. rewrite Hd. unfold lres_of. cbn [i_form i_path hd add_lres fst snd].
     apply (names_spec_snoc _ done acc j _ _ Hs); rewrite ?HG, ?HQ; clear HG HQ; intro x; cbn [In fst snd]; iff_tac.
+Qed.
+
+Lemma contrib_mod_spec : forall f done acc j ld g fm info mg,
+  names_spec f done acc ->
+  meaning fs root f j = Some (g, fm) -> lookup g ld = Some info -> mi_exports info = pub_names mg ->
+  find_file fs g = Some mg -> (forall l, i_form j = FSymbols l -> l <> []) ->
+  names_spec f (done ++ [j])
+    (contrib_mod acc j (lres_of {| i_path := i_path j; i_form := fm |}) (module_for fs root (dir_of f) j ld)).
+Proof.
+  intros f done acc j ld g fm info mg Hs Hmean Hl He Hg Hne.
+  exact (contrib_names_spec module_grant f done acc j ld g fm info mg module_grant_documented Hs Hmean Hl He Hg Hne).
 Qed.
 
 Lemma contrib_entry_spec : forall f done acc orig j ld g fm info mg acc' orig',
@@ -429,13 +471,11 @@ Lemma contrib_entry_spec : forall f done acc orig j ld g fm info mg acc' orig',
   names_spec f (done ++ [j]) acc'.
 Proof.
   intros f done acc orig j ld g fm info mg acc' orig' Hs Hmean Hl He Hg Hne Hc.
-  pose proof (contrib_mod_spec f done acc j ld g fm info mg Hs Hmean Hl He Hg Hne) as Hm.
-  assert (Heq : acc' = contrib_mod acc j (lres_of {| i_path := i_path j; i_form := fm |}) (module_for fs root (dir_of f) j ld)).
-  { unfold contrib_entry, contrib_mod in *.
-    destruct (module_for fs root (dir_of f) j ld) as [inf|]; [| inversion Hc; reflexivity].
-    destruct (i_form j); try (inversion Hc; reflexivity).
-    destruct (inter_nonempty (mi_exports inf) orig); [discriminate | inversion Hc; reflexivity]. }
-  rewrite Heq; exact Hm.
+  pose proof (contrib_names_spec entry_grant f done acc j ld g fm info mg entry_grant_documented Hs Hmean Hl He Hg Hne) as Hm.
+  cbv zeta in Hm. unfold contrib_entry in Hc.
+  destruct (module_for fs root (dir_of f) j ld) as [inf|]; [| inversion Hc; subst; exact Hm].
+  match type of Hc with (if ?c then _ else _) = _ => destruct c end; [discriminate|].
+  inversion Hc; subst. exact Hm.
 Qed.
 
 Lemma go_mod_v : forall ld file m, vgood ld -> reachable fs E file -> find_file fs file = Some m ->
@@ -446,7 +486,8 @@ Lemma go_mod_v : forall ld file m, vgood ld -> reachable fs E file -> find_file 
   | Ok (s2, acc2) => frame s s2 /\
       (forall j, In j (m_imports m) -> is_std (i_path j) = false -> loaded_as file j s2) /\
       (no_std_imports m -> nonempty_symbols m -> names_spec file (m_imports m) acc2)
-  | _ => True
+  | Err _ tr => errinv tr
+  | Fuel => True
   end.
 Proof.
   intros ld file m Hld Hr Hm imps; induction imps as [|j r IH]; intros done s acc Hsplit Hinv Hb Hdone Hacc; cbn.
@@ -470,6 +511,18 @@ Proof.
     pose proof (IH (done ++ [j]) s' _ Hsplit2 Hi' Hb2 Hdone2 Hacc2) as Hrest.
     destruct (go_mod fs root ld r s' _) as [[s2 a2]| |]; auto.
     destruct Hrest as (Hfr2 & Hall & Hnames). split; [eapply frame_trans; eauto | auto].
+Qed.
+
+Lemma snoc_errinv : forall st2 file ev, inv st2 -> ~ In file (trace st2) -> reachable fs E file ->
+  (forall h, edge fs E file h -> In h (trace st2)) -> ev_file ev = file -> errinv (events st2 ++ [ev]).
+Proof.
+  intros st2 file ev Hinv Hn Hr Hed Hev. destruct (inv_errinv st2 Hinv) as (Hnd & Hre & Hpo).
+  unfold errinv. rewrite map_app. cbn [map]. rewrite Hev. fold (trace st2) in *.
+  split; [apply NoDup_snoc; assumption|]. split.
+  - intros f Hf. apply in_app_or in Hf as [Hf|[<-|[]]]; auto.
+  - intros l1 g l2 Heq h Hgh. apply app_snoc_split in Heq as [(-> & -> & ->)|(l2' & -> & Heq)].
+    + apply Hed; exact Hgh.
+    + eapply Hpo; eauto.
 Qed.
 
 Lemma push_inv : forall cur mc i file fm m st nm,
@@ -521,7 +574,15 @@ Proof.
                 (fun j Hj => match Hj with end) (fun _ _ => names_spec_nil _)) as Hg.
   destruct (go_mod fs root ld (m_imports m) st1 ([], [])) as [[st2 acc]| |]; auto.
   destruct Hg as ((Hi2 & Hs2 & Hb2 & Hm2 & [ext Hext]) & Hall & Hnames).
-  destruct (bind_exports eimp (pub_names m) (write_defs file m (ns st2))) as [s2|] eqn:Hbind; cbn; auto.
+  assert (Hnotin0 : ~ In file (trace st2)).
+  { intro Hin. destruct (v_towner _ Hi2 file Hin) as (_ & Hnk). apply Hnk. rewrite Hs2. left; reflexivity. }
+  assert (Hdeps : forall h, edge fs E file h -> In h (trace st2)).
+  { intros h (m' & j & Hm' & Hj & Htj). rewrite Hm in Hm'; inversion Hm'; subst m'.
+    apply target_meaning in Htj as [fmj Hmj].
+    destruct (meaning_cases _ _ _ _ _ _ Hmj) as (Hstdj & _).
+    destruct (Hall j Hj Hstdj) as (g' & fm' & inf & Hg' & Hin & _). fold root in Hmj. congruence. }
+  destruct (bind_exports eimp (pub_names m) (write_defs file m (ns st2))) as [s2|] eqn:Hbind; cbn;
+    [| apply (snoc_errinv st2 file); auto].
   set (ev := {| ev_file := file; ev_key := i_path eimp; ev_aliases := fst acc; ev_known := _; ev_ns := _ |}).
   set (st' := {| loaded := loaded st2; stack := tl (stack st2); base := base st; ns := s2; events := events st2 ++ [ev] |}).
   assert (Htr : trace st' = trace st2 ++ [file]) by (unfold trace, st'; cbn; rewrite map_app; reflexivity).
@@ -578,13 +639,13 @@ Qed.
 Lemma load_step_v : forall ld, vgood ld -> vgood (load_step fs root ld).
 Proof.
   intros ld Hld cur mc i st Hr Hmc Hi Hinv Hb. unfold load_step. cbv zeta.
-  remember (i_path i) as p eqn:Ep in |- *. symmetry in Ep. destruct p as [|x p']; [exact I|].
+  remember (i_path i) as p eqn:Ep in |- *. symmetry in Ep. destruct p as [|x p']; [exact (inv_errinv st Hinv)|].
   destruct (is_std (x :: p')) eqn:Estd.
   { cbn. split; [apply frame_refl; exact Hinv|]. split.
     - unfold lres_spec, meaning. rewrite Ep, Estd. reflexivity.
     - rewrite Ep, Estd; discriminate. }
   assert (Hstd : is_std (i_path i) = false) by (rewrite Ep; exact Estd).
-  rewrite Hb. destruct (resolve_fb fs root (dir_of cur) (x :: p')) as [[[file actual] sym]|] eqn:Er; [| exact I].
+  rewrite Hb. destruct (resolve_fb fs root (dir_of cur) (x :: p')) as [[[file actual] sym]|] eqn:Er; [| exact (inv_errinv st Hinv)].
   set (eimp := match sym with Some s => {| i_path := actual; i_form := FSymbols [s] |} | None => i end).
   set (fm := match sym with Some s => FSymbols [s] | None => i_form i end).
   assert (Hmean : meaning fs root cur i = Some (file, fm)).
@@ -596,10 +657,10 @@ Proof.
   { unfold eimp. destruct (resolve_fb_shape _ _ _ _ _ _ _ Er) as [_ [(_ & -> & ->)|(_ & _ & -> & Hne)]]; cbn.
     - rewrite Ep; discriminate.
     - exact Hne. }
-  destruct (mem_key file (stack st)) eqn:Emem; [exact I|].
+  destruct (mem_key file (stack st)) eqn:Emem; [exact (inv_errinv st Hinv)|].
   apply mem_key_false in Emem.
   destruct (lookup file (loaded st)) as [info|] eqn:El.
-  - destruct (bind_exports eimp (mi_exports info) (ns st)) as [s|] eqn:Hbind; cbn; [| exact I].
+  - destruct (bind_exports eimp (mi_exports info) (ns st)) as [s|] eqn:Hbind; cbn; [| exact (inv_errinv st Hinv)].
     assert (Hinv' : inv (set_ns st s)) by (destruct Hinv; split; assumption).
     split.
     + split; [exact Hinv'|]. split; [reflexivity|]. split; [reflexivity|]. split.
@@ -629,7 +690,8 @@ Lemma entry_go_v : forall n me, find_file fs E = Some me ->
   | Ok (s2, acc2) => frame s s2 /\
       (forall j, In j (m_imports me) -> is_std (i_path j) = false -> loaded_as E j s2) /\
       (no_std_imports me -> nonempty_symbols me -> names_spec E (m_imports me) acc2)
-  | _ => True
+  | Err _ tr => errinv tr
+  | Fuel => True
   end.
 Proof.
   intros n me Hme imps; induction imps as [|j r IH]; intros done s acc orig Hsplit Hinv Hb Hdone Hacc; cbn.
@@ -639,7 +701,7 @@ Proof.
     destruct (load fs root n j s) as [[s' lr]| |]; cbn in Hj; auto.
     destruct Hj as (Hfr & -> & Htj). pose proof Hfr as (Hi' & Hs' & Hb' & Hm' & He').
     destruct (contrib_entry acc orig j (lres_spec E j) (module_for fs root (base s') j (loaded s')))
-      as [[acc' orig']|] eqn:Ec; [| exact I].
+      as [[acc' orig']|] eqn:Ec; [| exact (inv_errinv s' Hi')].
     assert (Hb2 : base s' = dir_of E) by congruence.
     assert (Hsplit2 : (done ++ [j]) ++ r = m_imports me) by (rewrite <- app_assoc; exact Hsplit).
     assert (Hdone2 : forall x, In x (done ++ [j]) -> is_std (i_path x) = false -> loaded_as E x s').
@@ -734,6 +796,21 @@ Proof.
       apply in_or_app; left. eapply Hpo; eauto.
 Qed.
 
+(* whatever the outcome: what ran, ran once, is reachable, and ran after its dependencies *)
+Lemma run_err_trace : forall fuel e tr, run fs E fuel = Err e tr ->
+  let t := map ev_file tr in
+  NoDup t /\ (forall f, In f t -> reachable fs E f) /\ postorder fs E t.
+Proof.
+  intros fuel e tr. unfold run. fold root.
+  destruct (find_file fs E) as [me|] eqn:Hme.
+  - pose proof (entry_go_v fuel me Hme (m_imports me) [] (init_state E) ([], []) [] eq_refl init_inv eq_refl
+                  (fun j Hj => match Hj with end) (fun _ _ => names_spec_nil _)) as Hg.
+    destruct (entry_go fs root fuel (m_imports me) (init_state E) ([], []) []) as [[st acc]| |]; try discriminate.
+    intro H; inversion H; subst. exact Hg.
+  - intro H; inversion H; subst. cbn. split; [constructor|]. split; [intros f []|].
+    intros l1 g l2 Hl. destruct l1; discriminate.
+Qed.
+
 Lemma run_cycle : forall fuel evs f, run fs E fuel = Ok evs -> reachable fs E f -> path_plus fs E f f -> False.
 Proof.
   intros fuel evs f Hrun Hr Hp. destruct (run_trace fuel evs Hrun) as (Hnd & Hcov & Hpo & _).
@@ -759,8 +836,7 @@ Proof.
     intro n. rewrite in_app_iff, HK. reflexivity.
 Qed.
 
-(* ---- which error: with every import resolvable and selecting pub symbols only, the loader can
-        only fail with CircularDependency (and the entry with SymbolConflict) *)
+(* ---- boundness of global names *)
 Definition bound (g : gname) (s : nsmap) : Prop := ns_get g s <> None.
 Definition nsmono (s s' : nsmap) : Prop := forall g, bound g s -> bound g s'.
 
@@ -828,6 +904,504 @@ Proof.
   - rewrite check_all_true by exact Hb. exists s; split; [reflexivity | intros g Hg; exact Hg].
 Qed.
 
+(* ---- which value a spelling reads *)
+Lemma gname_eqb_eq : forall a b, gname_eqb a b = true <-> a = b.
+Proof.
+  destruct a as [x|q x], b as [y|r y]; cbn; split; intro H; try discriminate; try congruence.
+  - apply N.eqb_eq in H; congruence.
+  - inversion H; apply N.eqb_refl.
+  - apply andb_true_iff in H as [H1 H2]. apply N.eqb_eq in H1, H2. congruence.
+  - inversion H; subst. rewrite !N.eqb_refl; reflexivity.
+Qed.
+
+Lemma ns_get_set : forall g g' v s, ns_get g (ns_set g' v s) = if gname_eqb g g' then Some v else ns_get g s.
+Proof. reflexivity. Qed.
+
+Lemma ns_get_set_same : forall g v s, ns_get g (ns_set g v s) = Some v.
+Proof. intros. rewrite ns_get_set. replace (gname_eqb g g) with true; [reflexivity|]. symmetry; apply gname_eqb_eq; reflexivity. Qed.
+
+Lemma ns_get_set_other : forall g g' v s, g <> g' -> ns_get g (ns_set g' v s) = ns_get g s.
+Proof.
+  intros g g' v s H. rewrite ns_get_set. destruct (gname_eqb g g') eqn:Eg; [apply gname_eqb_eq in Eg; contradiction | reflexivity].
+Qed.
+
+Lemma mem_id_iff : forall n l, mem_id n l = true <-> In n l.
+Proof.
+  split; [apply mem_id_true_In|]. induction l as [|x l IH]; intro H; [destruct H|].
+  destruct H as [<-|H]; cbn; [rewrite N.eqb_refl; reflexivity | rewrite IH by assumption; apply orb_true_r].
+Qed.
+
+Lemma write_defs_fold_qual : forall f ds s q n,
+  ns_get (GQ q n) (fold_left (fun s d => ns_set (GB (d_name d)) (f, d_name d) s) ds s) = ns_get (GQ q n) s.
+Proof.
+  intros f ds; induction ds as [|d r IH]; intros s q n; cbn; [reflexivity|].
+  rewrite IH. apply ns_get_set_other. discriminate.
+Qed.
+
+Lemma write_defs_fold_bare : forall f ds s n,
+  ns_get (GB n) (fold_left (fun s d => ns_set (GB (d_name d)) (f, d_name d) s) ds s) =
+  if mem_id n (map d_name ds) then Some (f, n) else ns_get (GB n) s.
+Proof.
+  intros f ds; induction ds as [|d r IH]; intros s n; cbn; [reflexivity|].
+  rewrite IH. destruct (mem_id n (map d_name r)) eqn:Er; [rewrite orb_true_r; reflexivity|].
+  rewrite orb_false_r. rewrite ns_get_set. cbn [gname_eqb].
+  destruct (n =? d_name d) eqn:En; [apply N.eqb_eq in En; subst; reflexivity | reflexivity].
+Qed.
+
+Lemma write_defs_qual : forall f m s q n, ns_get (GQ q n) (write_defs f m s) = ns_get (GQ q n) s.
+Proof. intros; apply write_defs_fold_qual. Qed.
+Lemma write_defs_bare : forall f m s n,
+  ns_get (GB n) (write_defs f m s) = if mem_id n (map d_name (m_defs m)) then Some (f, n) else ns_get (GB n) s.
+Proof. intros; apply write_defs_fold_bare. Qed.
+
+(* register_exports / the memo-hit re-binding: q::n := the current bare n, for n in the exports;
+   bare names keep their values *)
+Lemma bind_all_get : forall al bare ex s s', bind_all al bare ex s = Some s' ->
+  (forall n, ns_get (GB n) s' = ns_get (GB n) s) /\
+  (forall q n, ns_get (GQ q n) s' =
+               if (q =? al) && mem_id n ex then ns_get (GB n) s else ns_get (GQ q n) s).
+Proof.
+  intros al bare ex; induction ex as [|x r IH]; intros s s' H; cbn in H.
+  - inversion H; subst. split; [reflexivity|]. intros q n. cbn. rewrite andb_false_r; reflexivity.
+  - destruct (ns_get (GB x) s) as [v|] eqn:Ev; [| discriminate].
+    set (s1 := if bare then ns_set (GB x) v (ns_set (GQ al x) v s) else ns_set (GQ al x) v s) in H.
+    assert (Hb1 : forall n, ns_get (GB n) s1 = ns_get (GB n) s).
+    { intro n. unfold s1. destruct bare.
+      - rewrite ns_get_set. cbn [gname_eqb]. destruct (n =? x) eqn:En.
+        + apply N.eqb_eq in En; subst; auto.
+        + apply ns_get_set_other; discriminate.
+      - apply ns_get_set_other; discriminate. }
+    assert (Hq1 : forall q n, ns_get (GQ q n) s1 = if (q =? al) && (n =? x) then Some v else ns_get (GQ q n) s).
+    { intros q n. unfold s1. destruct bare.
+      - rewrite ns_get_set_other by discriminate. rewrite ns_get_set. reflexivity.
+      - rewrite ns_get_set. reflexivity. }
+    destruct (IH s1 s' H) as [Hb Hq]. split.
+    + intro n. rewrite Hb. apply Hb1.
+    + intros q n. rewrite Hq, Hb1, Hq1. cbn [mem_id].
+      destruct (q =? al) eqn:Eq; cbn [andb]; [| reflexivity].
+      destruct (mem_id n r) eqn:Er; [rewrite orb_true_r; reflexivity|]. rewrite orb_false_r.
+      destruct (n =? x) eqn:En; [apply N.eqb_eq in En; subst; auto | reflexivity].
+Qed.
+
+Lemma bind_exports_get : forall i ex s s', bind_exports i ex s = Some s' ->
+  (forall n, ns_get (GB n) s' = ns_get (GB n) s) /\
+  (forall q n, ns_get (GQ q n) s' =
+     if match i_form i with
+        | FModule => (q =? last_seg (i_path i)) && mem_id n ex
+        | FAlias a => (q =? a) && mem_id n ex
+        | _ => false
+        end
+     then ns_get (GB n) s else ns_get (GQ q n) s).
+Proof.
+  intros i ex s s'. unfold bind_exports, alias_of. destruct (i_form i) as [|a|l|] eqn:Ef.
+  - apply bind_all_get.
+  - apply bind_all_get.
+  - destruct (check_syms l ex s); [| discriminate]. intro H; inversion H; subst. split; reflexivity.
+  - destruct (check_all ex s); [| discriminate]. intro H; inversion H; subst. split; reflexivity.
+Qed.
+
+(* ---- the value pass: shapes of what is stored under a name, and that granted names are bound *)
+Definition binding (fm : form) (q : ident) (i : import) : Prop :=
+  (fm = FModule /\ q = last_seg (i_path i)) \/ fm = FAlias q.
+
+Definition binds (q n : ident) (g : fpath) : Prop :=
+  exists f mf j fm mg, find_file fs f = Some mf /\ In j (m_imports mf) /\ meaning fs root f j = Some (g, fm) /\
+    binding fm q j /\ find_file fs g = Some mg /\ In n (pub_names mg).
+
+Lemma pub_in_defs : forall m n, In n (pub_names m) -> In n (map d_name (m_defs m)).
+Proof.
+  unfold pub_names; intros m n H. apply in_map_iff in H as (d & Hn & Hd). apply filter_In in Hd as [Hd _].
+  apply in_map_iff. eauto.
+Qed.
+
+Lemma binding_qualifier : forall f j g fm q, meaning fs root f j = Some (g, fm) -> binding fm q j ->
+  granted_qualifier fs root f j = Some q /\ fm <> FWildcard.
+Proof.
+  intros f j g fm q Hm Hb. destruct (meaning_cases _ _ _ _ _ _ Hm) as (Hstd & _).
+  unfold granted_qualifier. rewrite Hstd, Hm. destruct Hb as [[-> ->]| ->]; split; try reflexivity; discriminate.
+Qed.
+
+Record binv (st : lstate) : Prop := {
+  b_bare : forall n v, ns_get (GB n) (ns st) = Some v -> exists g, v = (g, n) /\ defines fs g n;
+  b_qual : forall q n v, ns_get (GQ q n) (ns st) = Some v ->
+             exists g', v = (g', n) /\ defines fs g' n /\ exists g, binds q n g;
+  b_init : forall g n, In g (trace st) -> defines fs g n -> bound (GB n) (ns st);
+  b_evs : forall ev, In ev (events st) -> values_ok fs E ev
+}.
+
+Definition qbound (cur : fpath) (i : import) (s : nsmap) : Prop :=
+  forall g fm q mg n, meaning fs root cur i = Some (g, fm) -> binding fm q i ->
+    find_file fs g = Some mg -> In n (pub_names mg) -> bound (GQ q n) s.
+
+Definition bpost (cur : fpath) (i : import) (st : lstate) (r : res (lstate * lres)) : Prop :=
+  match r with
+  | Ok (st', _) => binv st' /\ nsmono (ns st) (ns st') /\ qbound cur i (ns st')
+  | _ => True
+  end.
+
+Definition bgood (ld : loader) : Prop :=
+  forall cur m i st, reachable fs E cur -> find_file fs cur = Some m -> In i (m_imports m) ->
+                     inv st -> base st = dir_of cur -> binv st -> bpost cur i st (ld i st).
+
+Lemma bind_all_bound : forall al bare ex s s', bind_all al bare ex s = Some s' ->
+  forall n, In n ex -> bound (GB n) s.
+Proof.
+  intros al bare ex; induction ex as [|x r IH]; intros s s' H n Hn; [destruct Hn|]. cbn in H.
+  destruct (ns_get (GB x) s) as [v|] eqn:Ev; [| discriminate].
+  destruct Hn as [<-|Hn]; [unfold bound; congruence|].
+  pose proof (IH _ _ H n Hn) as Hb. unfold bound in *.
+  destruct bare.
+  - rewrite ns_get_set in Hb. cbn [gname_eqb] in Hb. destruct (n =? x) eqn:En.
+    + apply N.eqb_eq in En; subst; congruence.
+    + rewrite ns_get_set_other in Hb by discriminate. exact Hb.
+  - rewrite ns_get_set_other in Hb by discriminate. exact Hb.
+Qed.
+
+(* the effect of register_exports / re-binding on the shapes *)
+Lemma bind_shapes : forall cur mc i g fm mg eimp s s',
+  find_file fs cur = Some mc -> In i (m_imports mc) -> meaning fs root cur i = Some (g, fm) ->
+  find_file fs g = Some mg -> i_form eimp = fm ->
+  (forall q, binding fm q eimp -> binding fm q i) ->
+  (forall n v, ns_get (GB n) s = Some v -> exists g0, v = (g0, n) /\ defines fs g0 n) ->
+  (forall q n v, ns_get (GQ q n) s = Some v -> exists g', v = (g', n) /\ defines fs g' n /\ exists g0, binds q n g0) ->
+  bind_exports eimp (pub_names mg) s = Some s' ->
+  (forall n v, ns_get (GB n) s' = Some v -> exists g0, v = (g0, n) /\ defines fs g0 n) /\
+  (forall q n v, ns_get (GQ q n) s' = Some v -> exists g', v = (g', n) /\ defines fs g' n /\ exists g0, binds q n g0) /\
+  nsmono s s' /\
+  (forall q n, binding fm q eimp -> In n (pub_names mg) -> bound (GQ q n) s').
+Proof.
+  intros cur mc i g fm mg eimp s s' Hmc Hi Hmean Hmg Hef Hbi Hb Hq Hbind.
+  destruct (bind_exports_get _ _ _ _ Hbind) as [HB HQ].
+  assert (Hbound : forall n, In n (pub_names mg) ->
+                   (i_form eimp = FModule \/ exists a, i_form eimp = FAlias a) -> bound (GB n) s).
+  { intros n Hn Hf. unfold bind_exports in Hbind.
+    destruct Hf as [Hf|[a Hf]]; rewrite Hf in Hbind; eapply bind_all_bound; eauto. }
+  split; [| split; [| split]].
+  - intros n v. rewrite HB. apply Hb.
+  - intros q n v. rewrite HQ.
+    destruct (i_form eimp) as [|a|l|] eqn:Ef.
+    + destruct ((q =? last_seg (i_path eimp)) && mem_id n (pub_names mg)) eqn:Ec; [| apply Hq].
+      apply andb_true_iff in Ec as [Eq En]. apply N.eqb_eq in Eq. apply mem_id_iff in En.
+      intro Hv. destruct (Hb n v Hv) as (g0 & -> & Hd). exists g0. split; [reflexivity|]. split; [exact Hd|].
+      exists g. exists cur, mc, i, fm, mg. repeat split; auto. apply Hbi. left. split; congruence.
+    + destruct ((q =? a) && mem_id n (pub_names mg)) eqn:Ec; [| apply Hq].
+      apply andb_true_iff in Ec as [Eq En]. apply N.eqb_eq in Eq. apply mem_id_iff in En.
+      intro Hv. destruct (Hb n v Hv) as (g0 & -> & Hd). exists g0. split; [reflexivity|]. split; [exact Hd|].
+      exists g. exists cur, mc, i, fm, mg. repeat split; auto. apply Hbi. right. congruence.
+    + apply Hq.
+    + apply Hq.
+  - intros x Hx. unfold bound in *. destruct x as [n|q n].
+    + rewrite HB; exact Hx.
+    + rewrite HQ. match goal with |- (if ?c then _ else _) <> None => destruct c eqn:Ec end; [| exact Hx].
+      destruct (i_form eimp) as [|a|l|] eqn:Ef; try discriminate;
+        apply andb_true_iff in Ec as [_ En]; apply mem_id_iff in En;
+        (apply Hbound; [exact En | eauto]).
+  - intros q n Hbq Hn. unfold bound. rewrite HQ.
+    assert (Hc : (match i_form eimp with
+                  | FModule => (q =? last_seg (i_path eimp)) && mem_id n (pub_names mg)
+                  | FAlias a => (q =? a) && mem_id n (pub_names mg)
+                  | _ => false end) = true).
+    { destruct Hbq as [[Hf ->]|Hf]; rewrite Hef, Hf; rewrite N.eqb_refl; cbn; apply mem_id_iff; exact Hn. }
+    rewrite Hc. apply Hbound; [exact Hn|].
+    destruct Hbq as [[Hf _]|Hf]; [left; congruence | right; exists q; congruence].
+Qed.
+
+Lemma granted_qualifier_meaning : forall f j q, is_std (i_path j) = false ->
+  granted_qualifier fs root f j = Some q ->
+  exists g fm, meaning fs root f j = Some (g, fm) /\ (binding fm q j \/ (fm = FWildcard /\ q = last_seg (i_path j))).
+Proof.
+  intros f j q Hstd. unfold granted_qualifier. rewrite Hstd.
+  destruct (meaning fs root f j) as [[g fm]|]; [| discriminate].
+  destruct fm as [|a|l|]; intro H; inversion H; subst; exists g; eexists; split; try reflexivity.
+  - left; left; auto.
+  - left; right; reflexivity.
+  - right; auto.
+Qed.
+
+Lemma granted_bare_pub : forall f m j g fm mg n, selected_are_pub fs E f -> find_file fs f = Some m ->
+  In j (m_imports m) -> meaning fs root f j = Some (g, fm) -> find_file fs g = Some mg ->
+  In n (granted_bare fs root f j) -> In n (pub_names mg).
+Proof.
+  intros f m j g fm mg n Hsel Hm Hj Hmean Hmg Hn.
+  destruct (meaning_cases _ _ _ _ _ _ Hmean) as (Hstd & _).
+  destruct (Hsel m j Hm Hj Hstd) as (g' & fm' & mg' & Hmean' & Hmg' & Hsy). fold root in Hmean'.
+  rewrite Hmean in Hmean'; inversion Hmean'; subst g' fm'. rewrite Hmg in Hmg'; inversion Hmg'; subst mg'.
+  unfold granted_bare in Hn. rewrite Hmean, Hmg in Hn.
+  destruct fm as [|a|l|]; try exact Hn; [destruct Hn | eapply Hsy; eauto].
+Qed.
+
+(* what the top level of file f reads, given the namespace s it starts from *)
+Lemma event_values : forall f m s tr ev,
+  find_file fs f = Some m -> ev_file ev = f -> ev_ns ev = write_defs f m s ->
+  names_ok fs E ev -> selected_are_pub fs E f ->
+  (forall n v, ns_get (GB n) s = Some v -> exists g0, v = (g0, n) /\ defines fs g0 n) ->
+  (forall q n v, ns_get (GQ q n) s = Some v -> exists g', v = (g', n) /\ defines fs g' n /\ exists g0, binds q n g0) ->
+  (forall g n, In g tr -> defines fs g n -> bound (GB n) s) ->
+  ~ In f tr ->
+  (forall j g fm, In j (m_imports m) -> meaning fs root f j = Some (g, fm) -> In g tr) ->
+  (forall j, In j (m_imports m) -> qbound f j s) ->
+  values_ok fs E ev.
+Proof.
+  intros f m s tr ev Hm Hef Hens Hnames Hsel Hb Hq Hinit Hnf Htr Hqb.
+  intros m' Hm' Hns Hne sp Hg v. rewrite Hef in Hm'. rewrite Hm in Hm'; inversion Hm'; subst m'.
+  rewrite Hef. fold root.
+  destruct (Hnames m) as [HA HK]; [rewrite Hef; exact Hm | exact Hns | exact Hne |]. rewrite Hef in HA, HK. fold root in HA, HK.
+  destruct sp as [n|q n]; cbn [probe sp_guard grants_sp] in *.
+  - (* bare *)
+    rewrite Hens, write_defs_bare.
+    destruct (mem_id n (ev_known ev)) eqn:Ek.
+    + apply mem_id_iff in Ek. apply HK in Ek.
+      destruct (mem_id n (map d_name (m_defs m))) eqn:Eo.
+      * apply mem_id_iff in Eo. split.
+        -- intro H; inversion H; subst. left; auto.
+        -- intros [[_ ->]|(j & g & fm & Hj & Hmean & Hn & ->)]; [reflexivity|].
+           exfalso. destruct (meaning_cases _ _ _ _ _ _ Hmean) as (_ & [mg Hmg] & _).
+           assert (defines fs g n) by (exists mg; split; [exact Hmg | apply pub_in_defs; eapply granted_bare_pub; eauto]).
+           assert (defines fs f n) by (exists m; auto).
+           assert (f = g) by (apply Hg; auto). subst g. apply Hnf. eapply Htr; eauto.
+      * assert (Hno : ~ In n (map d_name (m_defs m))) by (intro Hx; apply mem_id_iff in Hx; congruence).
+        split.
+        -- intro Hv. destruct Ek as [Ek|(j & Hj & Hn)]; [contradiction|].
+           destruct (Hsel m j Hm Hj (Hns j Hj)) as (g & fm & mg & Hmean & Hmg & _). fold root in Hmean.
+           destruct (Hb n v Hv) as (g0 & -> & Hd0).
+           assert (defines fs g n) by (exists mg; split; [exact Hmg | apply pub_in_defs; eapply granted_bare_pub; eauto]).
+           assert (g0 = g) by (apply Hg; auto). subst g0.
+           right. exists j, g, fm. auto.
+        -- intros [[Ho _]|(j & g & fm & Hj & Hmean & Hn & ->)]; [contradiction|].
+           destruct (meaning_cases _ _ _ _ _ _ Hmean) as (_ & [mg Hmg] & _).
+           assert (Hd : defines fs g n) by (exists mg; split; [exact Hmg | apply pub_in_defs; eapply granted_bare_pub; eauto]).
+           pose proof (Hinit g n (Htr j g fm Hj Hmean) Hd) as Hbd. unfold bound in Hbd.
+           destruct (ns_get (GB n) s) as [v0|] eqn:Ev; [| contradiction].
+           destruct (Hb n v0 Ev) as (g0 & -> & Hd0). assert (g0 = g) by (apply Hg; auto). subst; reflexivity.
+    + split; [discriminate|].
+      assert (Hnk : ~ In n (ev_known ev)) by (intro Hx; apply mem_id_iff in Hx; congruence).
+      intros [[Ho _]|(j & g & fm & Hj & Hmean & Hn & _)]; exfalso; apply Hnk, HK; [left; exact Ho | right; eauto].
+  - (* qualified *)
+    destruct Hg as [Hun Hqok].
+    rewrite Hens, write_defs_qual.
+    destruct (mem_id q (ev_aliases ev)) eqn:Ea.
+    + apply mem_id_iff in Ea. apply HA in Ea as (j & Hj & Hgq).
+      destruct (granted_qualifier_meaning f j q (Hns j Hj) Hgq) as (gj & fmj & Hmj & Hform).
+      split.
+      * intro Hv. destruct (Hq q n v Hv) as (g' & -> & Hd' & gb & (fb & mfb & jb & fmb & mgb & Hfb & Hjb & Hmb & Hbb & Hmgb & Hnb)).
+        destruct (binding_qualifier fb jb gb fmb q Hmb Hbb) as [Hgqb Hnw].
+        destruct (Hqok f m j fb mfb jb gj fmj gb fmb Hm Hj Hmj Hfb Hjb Hmb Hgq Hgqb) as [-> Hw].
+        assert (Hbj : binding fmj q j).
+        { destruct Hform as [Hbj|[Hwj _]]; [exact Hbj | exfalso; apply Hnw, Hw, Hwj]. }
+        assert (g' = gb) by (apply Hun; [exact Hd' | exists mgb; split; [exact Hmgb | apply pub_in_defs; exact Hnb]]).
+        subst g'. exists j, gb, fmj, mgb. auto 10.
+      * intros (j' & g & fm & mg & Hj' & Hmean & Hbnd & Hmg & Hn & ->).
+        pose proof (Hqb j' Hj' g fm q mg n Hmean Hbnd Hmg Hn) as Hbd. unfold bound in Hbd.
+        destruct (ns_get (GQ q n) s) as [v0|] eqn:Ev; [| contradiction].
+        destruct (Hq q n v0 Ev) as (g' & -> & Hd' & _).
+        assert (g' = g) by (apply Hun; [exact Hd' | exists mg; split; [exact Hmg | apply pub_in_defs; exact Hn]]).
+        subst; reflexivity.
+    + split; [discriminate|].
+      assert (Hna : ~ In q (ev_aliases ev)) by (intro Hx; apply mem_id_iff in Hx; congruence).
+      intros (j & g & fm & mg & Hj & Hmean & Hbnd & _). exfalso. apply Hna, HA.
+      exists j; split; [exact Hj|]. eapply binding_qualifier; eauto.
+Qed.
+
+Lemma qbound_mono : forall cur i s s', nsmono s s' -> qbound cur i s -> qbound cur i s'.
+Proof. intros cur i s s' Hm Hq g fm q mg n H1 H2 H3 H4. apply Hm. eapply Hq; eauto. Qed.
+
+Lemma go_mod_b : forall ld file m, vgood ld -> bgood ld -> reachable fs E file -> find_file fs file = Some m ->
+  forall imps done s acc, done ++ imps = m_imports m -> inv s -> base s = dir_of file -> binv s ->
+  (forall j, In j done -> qbound file j (ns s)) ->
+  match go_mod fs root ld imps s acc with
+  | Ok (s2, _) => binv s2 /\ nsmono (ns s) (ns s2) /\ (forall j, In j (m_imports m) -> qbound file j (ns s2))
+  | _ => True
+  end.
+Proof.
+  intros ld file m Hv Hbg Hr Hm imps; induction imps as [|j r IH]; intros done s acc Hsplit Hinv Hb Hbinv Hdone; cbn.
+  - rewrite app_nil_r in Hsplit; subst done. split; [exact Hbinv|]. split; [intros g Hg; exact Hg | exact Hdone].
+  - assert (Hjin : In j (m_imports m)) by (rewrite <- Hsplit; apply in_or_app; right; left; reflexivity).
+    pose proof (Hv file m j s Hr Hm Hjin Hinv Hb) as Hvj.
+    pose proof (Hbg file m j s Hr Hm Hjin Hinv Hb Hbinv) as Hbj.
+    destruct (ld j s) as [[s' lr]| |]; cbn in *; auto.
+    destruct Hvj as ((Hi' & Hs' & Hb' & _) & _). destruct Hbj as (Hbinv' & Hmono & Hqb).
+    assert (Hsplit2 : (done ++ [j]) ++ r = m_imports m) by (rewrite <- app_assoc; exact Hsplit).
+    assert (Hdone2 : forall x, In x (done ++ [j]) -> qbound file x (ns s')).
+    { intros x Hx. apply in_app_or in Hx as [Hx|[<-|[]]]; [eapply qbound_mono; eauto | exact Hqb]. }
+    pose proof (IH (done ++ [j]) s' (contrib_mod acc j lr (module_for fs root (base s') j (loaded s')))
+                  Hsplit2 Hi' (eq_trans Hb' Hb) Hbinv' Hdone2) as Hrest.
+    destruct (go_mod fs root ld r s' _) as [[s2 a2]| |]; auto.
+    destruct Hrest as (Hb2 & Hm2 & Hall). split; [exact Hb2|]. split; [intros g Hg; apply Hm2, Hmono, Hg | exact Hall].
+Qed.
+
+Lemma write_defs_shapes : forall f m s, find_file fs f = Some m ->
+  (forall n v, ns_get (GB n) s = Some v -> exists g0, v = (g0, n) /\ defines fs g0 n) ->
+  (forall n v, ns_get (GB n) (write_defs f m s) = Some v -> exists g0, v = (g0, n) /\ defines fs g0 n).
+Proof.
+  intros f m s Hm Hb n v. rewrite write_defs_bare.
+  destruct (mem_id n (map d_name (m_defs m))) eqn:Eo; [| apply Hb].
+  apply mem_id_iff in Eo. intro H; inversion H; subst. exists f; split; [reflexivity | exists m; auto].
+Qed.
+
+Lemma compile_b : forall ld cur mc i file fm m st eimp,
+  vgood ld -> bgood ld -> reachable fs E cur -> find_file fs cur = Some mc -> In i (m_imports mc) ->
+  meaning fs root cur i = Some (file, fm) -> i_path i <> [] -> inv st -> base st = dir_of cur -> binv st ->
+  ~ In file (stack st) -> lookup file (loaded st) = None -> find_file fs file = Some m ->
+  i_form eimp = fm -> i_path eimp <> [] -> lres_of eimp = lres_spec cur i ->
+  (forall q, binding fm q eimp <-> binding fm q i) ->
+  bpost cur i st (compile fs root ld file eimp m st).
+Proof.
+  intros ld cur mc i file fm m st eimp Hv Hbg Hr Hmc Hi Hmean Hne Hinv Hb Hbinv Emem El Hm Hef Hep Hlr Hbi.
+  pose proof (compile_v ld cur mc i file fm m st Hv Hr Hmc Hi Hmean Hne Hinv Hb Emem El Hm eimp Hef Hep Hlr) as Hcv.
+  pose proof (push_inv cur mc i file fm m st (last_seg (i_path eimp)) Hr Hmc Hi Hmean Hinv Emem El Hm) as Hinv1.
+  unfold compile in *.
+  set (info := {| mi_file := file; mi_exports := pub_names m; mi_name := _ |}) in *.
+  set (st1 := {| loaded := (file, info) :: loaded st; stack := file :: stack st;
+                 base := dir_of file; ns := ns st; events := events st |}) in *.
+  assert (Hrf : reachable fs E file) by (eapply r_step; [exact Hr | eapply edge_of_meaning; eauto]).
+  assert (Hbinv1 : binv st1) by (destruct Hbinv; split; assumption).
+  pose proof (go_mod_b ld file m Hv Hbg Hrf Hm (m_imports m) [] st1 ([], []) eq_refl Hinv1 eq_refl Hbinv1
+                (fun j Hj => match Hj with end)) as Hgb.
+  pose proof (go_mod_v ld file m Hv Hrf Hm (m_imports m) [] st1 ([], []) eq_refl Hinv1 eq_refl
+                (fun j Hj => match Hj with end) (fun _ _ => names_spec_nil _)) as Hgv.
+  destruct (go_mod fs root ld (m_imports m) st1 ([], [])) as [[st2 acc]| |]; auto.
+  destruct Hgb as (Hb2 & Hmono2 & Hqall). destruct Hgv as ((Hi2 & Hs2 & _ & Hm2 & _) & Hall & _).
+  destruct (bind_exports eimp (pub_names m) (write_defs file m (ns st2))) as [s2|] eqn:Hbind; cbn in *; auto.
+  destruct Hcv as ((Hinv' & _) & _).
+  set (s1 := write_defs file m (ns st2)) in *.
+  assert (Hnotin : ~ In file (trace st2)).
+  { intro Hin. destruct (v_towner _ Hi2 file Hin) as (_ & Hnk). apply Hnk. rewrite Hs2. left; reflexivity. }
+  destruct (bind_shapes cur mc i file fm m eimp s1 s2 Hmc Hi Hmean Hm Hef (fun q H => proj1 (Hbi q) H)
+              (write_defs_shapes file m (ns st2) Hm (b_bare _ Hb2))
+              (fun q n v H => b_qual _ Hb2 q n v (eq_trans (eq_sym (write_defs_qual file m (ns st2) q n)) H))
+              Hbind) as (HB & HQ & Hmono3 & Hnew).
+  assert (Hw : nsmono (ns st2) s1) by apply write_defs_fold_mono.
+  split; [| split].
+  - split; cbn.
+    + exact HB.
+    + exact HQ.
+    + intros g n Hg Hd. unfold trace in Hg; cbn in Hg. rewrite map_app in Hg. apply in_app_or in Hg as [Hg|[<-|[]]].
+      * apply Hmono3, Hw. apply (b_init _ Hb2 g n); assumption.
+      * apply Hmono3. destruct Hd as (mg & Hmg & Hn). cbn in Hmg. rewrite Hm in Hmg; inversion Hmg; subst mg.
+        apply in_map_iff in Hn as (d & <- & Hd). apply write_defs_binds; exact Hd.
+    + intros e He. apply in_app_or in He as [He|[<-|[]]]; [apply (b_evs _ Hb2); exact He|].
+      match goal with |- values_ok _ _ ?e0 =>
+        assert (Hin0 : In e0 (events st2 ++ [e0])) by (apply in_or_app; right; left; reflexivity);
+        destruct (v_evs _ Hinv' e0 Hin0) as (_ & Hnames & Hsel) end.
+      eapply (event_values file m (ns st2) (trace st2)); eauto.
+      * apply (b_bare _ Hb2).
+      * apply (b_qual _ Hb2).
+      * apply (b_init _ Hb2).
+      * intros j g fmj Hj Hmj. destruct (meaning_cases _ _ _ _ _ _ Hmj) as (Hstdj & _).
+        destruct (Hall j Hj Hstdj) as (g' & fm' & inf & Hg' & Hin & _). congruence.
+  - intros x Hx. apply Hmono3, Hw, Hmono2. exact Hx.
+  - intros g fm' q mg n Hmean' Hbnd Hmg Hn. rewrite Hmean in Hmean'; inversion Hmean'; subst g fm'.
+    rewrite Hm in Hmg; inversion Hmg; subst mg. apply Hnew; [apply Hbi; exact Hbnd | exact Hn].
+Qed.
+
+Lemma load_step_b : forall ld, vgood ld -> bgood ld -> bgood (load_step fs root ld).
+Proof.
+  intros ld Hv Hbg cur mc i st Hr Hmc Hi Hinv Hb Hbinv. unfold load_step. cbv zeta.
+  remember (i_path i) as p eqn:Ep in |- *. symmetry in Ep. destruct p as [|x p']; [exact I|].
+  destruct (is_std (x :: p')) eqn:Estd.
+  { cbn. split; [exact Hbinv|]. split; [intros g Hg; exact Hg|].
+    intros g fm q mg n Hmean. unfold meaning in Hmean. rewrite Ep, Estd in Hmean. discriminate. }
+  assert (Hstd : is_std (i_path i) = false) by (rewrite Ep; exact Estd).
+  rewrite Hb. destruct (resolve_fb fs root (dir_of cur) (x :: p')) as [[[file actual] sym]|] eqn:Er; [| exact I].
+  set (eimp := match sym with Some s => {| i_path := actual; i_form := FSymbols [s] |} | None => i end).
+  set (fm := match sym with Some s => FSymbols [s] | None => i_form i end).
+  assert (Hmean : meaning fs root cur i = Some (file, fm)).
+  { unfold meaning, fm. rewrite Hstd, Ep, Er. destruct sym; reflexivity. }
+  assert (Hef : i_form eimp = fm) by (unfold eimp, fm; destruct sym; reflexivity).
+  assert (Hlr : lres_of eimp = lres_spec cur i).
+  { unfold lres_spec. rewrite Hmean. unfold eimp, fm, lres_of. destruct sym; reflexivity. }
+  assert (Hep : i_path eimp <> []).
+  { unfold eimp. destruct (resolve_fb_shape _ _ _ _ _ _ _ Er) as [_ [(_ & -> & ->)|(_ & _ & -> & Hne)]]; cbn.
+    - rewrite Ep; discriminate.
+    - exact Hne. }
+  assert (Hbi : forall q, binding fm q eimp <-> binding fm q i).
+  { intro q. unfold eimp, fm. destruct sym; [| tauto].
+    split; intros [[Hx _]|Hx]; discriminate. }
+  destruct (mem_key file (stack st)) eqn:Emem; [exact I|].
+  apply mem_key_false in Emem.
+  pose proof Er as Er'. apply resolve_fb_shape in Er' as [[m Hm] _].
+  destruct (lookup file (loaded st)) as [info|] eqn:El.
+  - destruct (bind_exports eimp (mi_exports info) (ns st)) as [s|] eqn:Hbind; cbn; [| exact I].
+    destruct (v_info _ Hinv _ _ El) as (_ & m' & Hm' & Hex). rewrite Hm in Hm'; inversion Hm'; subst m'.
+    rewrite Hex in Hbind.
+    destruct (bind_shapes cur mc i file fm m eimp (ns st) s Hmc Hi Hmean Hm Hef (fun q H => proj1 (Hbi q) H)
+                (b_bare _ Hbinv) (b_qual _ Hbinv) Hbind) as (HB & HQ & Hmono & Hnew).
+    split; [| split].
+    + split; cbn.
+      * exact HB.
+      * exact HQ.
+      * intros g n Hg Hd. apply Hmono. apply (b_init _ Hbinv g n); assumption.
+      * apply (b_evs _ Hbinv).
+    + exact Hmono.
+    + intros g fm' q mg n Hmean' Hbnd Hmg Hn. rewrite Hmean in Hmean'; inversion Hmean'; subst g fm'.
+      rewrite Hm in Hmg; inversion Hmg; subst mg. apply Hnew; [apply Hbi; exact Hbnd | exact Hn].
+  - rewrite Hm. eapply compile_b; eauto. rewrite Ep; discriminate.
+Qed.
+
+Lemma load_b : forall n, bgood (load fs root n).
+Proof.
+  induction n as [|n IH]; [intros cur m i st _ _ _ _ _ _; exact I|].
+  cbn [load]. apply load_step_b; [apply load_v | exact IH].
+Qed.
+
+Lemma entry_go_b : forall n me, find_file fs E = Some me ->
+  forall imps done s acc orig, done ++ imps = m_imports me -> inv s -> base s = dir_of E -> binv s ->
+  (forall j, In j done -> qbound E j (ns s)) ->
+  match entry_go fs root n imps s acc orig with
+  | Ok (s2, _) => binv s2 /\ (forall j, In j (m_imports me) -> qbound E j (ns s2))
+  | _ => True
+  end.
+Proof.
+  intros n me Hme imps; induction imps as [|j r IH]; intros done s acc orig Hsplit Hinv Hb Hbinv Hdone; cbn.
+  - rewrite app_nil_r in Hsplit; subst done. auto.
+  - assert (Hjin : In j (m_imports me)) by (rewrite <- Hsplit; apply in_or_app; right; left; reflexivity).
+    pose proof (load_v n E me j s (r_refl fs E) Hme Hjin Hinv Hb) as Hvj.
+    pose proof (load_b n E me j s (r_refl fs E) Hme Hjin Hinv Hb Hbinv) as Hbj.
+    destruct (load fs root n j s) as [[s' lr]| |]; cbn in *; auto.
+    destruct Hvj as ((Hi' & Hs' & Hb' & _) & _). destruct Hbj as (Hbinv' & Hmono & Hqb).
+    destruct (contrib_entry acc orig j lr _) as [[acc' orig']|]; [| exact I].
+    assert (Hsplit2 : (done ++ [j]) ++ r = m_imports me) by (rewrite <- app_assoc; exact Hsplit).
+    assert (Hdone2 : forall x, In x (done ++ [j]) -> qbound E x (ns s')).
+    { intros x Hx. apply in_app_or in Hx as [Hx|[<-|[]]]; [eapply qbound_mono; eauto | exact Hqb]. }
+    apply (IH (done ++ [j]) s' acc' orig' Hsplit2 Hi' (eq_trans Hb' Hb) Hbinv' Hdone2).
+Qed.
+
+Lemma init_binv : binv (init_state E).
+Proof.
+  split; cbn; try discriminate.
+  - intros g n [].
+  - intros ev [].
+Qed.
+
+Lemma run_values : forall fuel evs, run fs E fuel = Ok evs -> forall ev, In ev evs -> values_ok fs E ev.
+Proof.
+  intros fuel evs Hrun. pose proof (run_names fuel evs Hrun) as Hnames. revert Hrun. unfold run. fold root.
+  destruct (find_file fs E) as [me|] eqn:Hme; [| discriminate].
+  pose proof (entry_go_v fuel me Hme (m_imports me) [] (init_state E) ([], []) [] eq_refl init_inv eq_refl
+                (fun j Hj => match Hj with end) (fun _ _ => names_spec_nil _)) as Hg.
+  pose proof (entry_go_b fuel me Hme (m_imports me) [] (init_state E) ([], []) [] eq_refl init_inv eq_refl
+                init_binv (fun j Hj => match Hj with end)) as Hgb.
+  destruct (entry_go fs root fuel (m_imports me) (init_state E) ([], []) []) as [[st acc]| |]; try discriminate.
+  destruct Hg as ((Hinv & _ & _ & _ & _) & Hall & _). destruct Hgb as [Hbinv Hqall].
+  intro Hrun; inversion Hrun; subst evs; clear Hrun.
+  intros ev Hev. pose proof (Hnames ev Hev) as [Hn Hsel].
+  apply in_app_or in Hev as [Hev|[<-|[]]]; [apply (b_evs _ Hbinv); exact Hev|].
+  assert (HnE : ~ In E (trace st)).
+  { intro HE. destruct (v_towner _ Hinv E HE) as (Hk & _). unfold has_key in Hk.
+    destruct (lookup E (loaded st)) as [info|] eqn:Hl; [| contradiction].
+    destruct (v_key _ Hinv _ _ Hl) as (f' & Hr' & He').
+    eapply (po_no_cycle (trace st) (v_post _ Hinv) (v_tnodup _ Hinv) E); [| exact HE].
+    eapply reach_edge_plus; eauto. }
+  eapply (event_values E me (ns st) (trace st)); eauto.
+  - apply (b_bare _ Hbinv).
+  - apply (b_qual _ Hbinv).
+  - apply (b_init _ Hbinv).
+  - intros j g fmj Hj Hmj. destruct (meaning_cases _ _ _ _ _ _ Hmj) as (Hstdj & _).
+    destruct (Hall j Hj Hstdj) as (g' & fm' & inf & Hg' & Hin & _). congruence.
+Qed.
+
+(* ---- which error: with every import resolvable and selecting pub symbols only, the loader can
+        only fail with CircularDependency (and the entry with SymbolConflict) *)
 Hypothesis HC : clean fs E.
 
 Definition ninv (st : lstate) : Prop :=
@@ -976,6 +1550,11 @@ Lemma init_once_lemma : forall fs E fuel evs, run fs E fuel = Ok evs ->
   NoDup tr /\ (forall f, In f tr <-> reachable fs E f) /\ postorder fs E tr /\ (exists l, tr = l ++ [E]).
 Proof. intros fs E fuel evs Hrun. eapply run_trace; eauto. Qed.
 
+Lemma at_most_once_on_error_lemma : forall fs E fuel e tr, run fs E fuel = Err e tr ->
+  let t := map ev_file tr in
+  NoDup t /\ (forall f, In f t -> reachable fs E f) /\ postorder fs E t.
+Proof. intros fs E fuel e tr H. eapply run_err_trace; eauto. Qed.
+
 Lemma cycle_never_ok_lemma : forall fs E fuel f,
   reachable fs E f -> path_plus fs E f f -> forall evs, run fs E fuel <> Ok evs.
 Proof. intros fs E fuel f Hr Hp evs Hrun. eapply run_cycle; eauto. Qed.
@@ -1028,21 +1607,93 @@ Lemma visibility_lemma : forall fs E fuel evs, run fs E fuel = Ok evs -> forall 
   names_ok fs E ev /\ selected_are_pub fs E (ev_file ev).
 Proof. intros fs E fuel evs Hrun ev Hev. eapply run_names; eauto. Qed.
 
-(* every bare name a top level knows is its own or a pub name of a module one of its imports means *)
+Lemma values_lemma : forall fs E fuel evs, run fs E fuel = Ok evs -> forall ev, In ev evs -> values_ok fs E ev.
+Proof. intros fs E fuel evs Hrun ev Hev. eapply run_values; eauto. Qed.
+
+(* ---- the guards of the value clause are decidable *)
+Lemma count_id_app : forall n a b, count_id n (a ++ b) = (count_id n a + count_id n b)%nat.
+Proof. induction a as [|x a IH]; intro b; cbn; [reflexivity | rewrite IH; lia]. Qed.
+
+Lemma count_id_In : forall n l, In n l -> (count_id n l >= 1)%nat.
+Proof.
+  induction l as [|x l IH]; intro H; [destruct H|]. cbn. destruct H as [->|H].
+  - rewrite N.eqb_refl. lia.
+  - specialize (IH H). lia.
+Qed.
+
+Lemma in_two_split : forall A (a b : A) l, In a l -> In b l -> a <> b ->
+  exists l1 l2 l3, l = l1 ++ a :: l2 ++ b :: l3 \/ l = l1 ++ b :: l2 ++ a :: l3.
+Proof.
+  intros A a b l Ha Hb Hne. apply in_split in Ha as (l1 & l2 & ->).
+  apply in_app_or in Hb as [Hb|[Hb|Hb]]; [| congruence |].
+  - apply in_split in Hb as (x & y & ->). exists x, y, l2. right. rewrite <- app_assoc. reflexivity.
+  - apply in_split in Hb as (x & y & ->). exists l1, x, y. left. reflexivity.
+Qed.
+
+Lemma unique_defs_sound : forall fs, unique_defs fs = true -> forall n, name_unique fs n.
+Proof.
+  intros fs Hu n g1 g2 (m1 & Hm1 & Hn1) (m2 & Hm2 & Hn2).
+  destruct (key_eqb g1 g2) eqn:Eg; [apply key_eqb_eq; exact Eg|]. exfalso.
+  apply key_eqb_neq in Eg. apply lookup_In in Hm1, Hm2.
+  assert (Hne : (g1, m1) <> (g2, m2)) by congruence.
+  destruct (in_two_split _ _ _ _ Hm1 Hm2 Hne) as (l1 & l2 & l3 & Hsplit).
+  unfold unique_defs in Hu. rewrite forallb_forall in Hu.
+  assert (Hin : In n (all_def_names fs)).
+  { unfold all_def_names. apply in_flat_map. exists (g1, m1); split; [exact Hm1 | exact Hn1]. }
+  specialize (Hu n Hin). apply Nat.eqb_eq in Hu.
+  assert (Hge : (count_id n (all_def_names fs) >= 2)%nat).
+  { unfold all_def_names. pose proof (count_id_In n _ Hn1). pose proof (count_id_In n _ Hn2).
+    destruct Hsplit as [Hs|Hs]; rewrite Hs; rewrite !flat_map_app; cbn [flat_map]; rewrite !flat_map_app;
+      cbn [flat_map]; rewrite !count_id_app; cbn [snd] in *; lia. }
+  lia.
+Qed.
+
+Lemma quals_ok_sound : forall fs root, quals_ok_b fs root = true -> forall q, qual_ok fs root q.
+Proof.
+  intros fs root Hb q f1 m1 j1 f2 m2 j2 g1 fm1 g2 fm2 Hf1 Hj1 Hm1 Hf2 Hj2 Hm2 Hq1 Hq2.
+  unfold quals_ok_b in Hb. rewrite forallb_forall in Hb.
+  assert (Huse : forall f m j g fm, find_file fs f = Some m -> In j (m_imports m) ->
+            meaning fs root f j = Some (g, fm) -> granted_qualifier fs root f j = Some q ->
+            In (q, g, fm) (qual_uses fs root)).
+  { intros f m j g fm Hf Hj Hm Hq. unfold qual_uses. apply in_flat_map. exists (f, m).
+    split; [apply lookup_In; exact Hf|]. apply in_flat_map. exists j. split; [exact Hj|].
+    cbn [fst]. rewrite Hq, Hm. left; reflexivity. }
+  pose proof (Hb _ (Huse _ _ _ _ _ Hf1 Hj1 Hm1 Hq1)) as H1. rewrite forallb_forall in H1.
+  specialize (H1 _ (Huse _ _ _ _ _ Hf2 Hj2 Hm2 Hq2)). cbn [fst snd] in H1.
+  rewrite N.eqb_refl in H1. cbn in H1. apply andb_true_iff in H1 as [Hk Hw].
+  apply key_eqb_eq in Hk. split; [exact Hk|].
+  intros ->. cbn in Hw. destruct fm2; try discriminate; reflexivity.
+Qed.
+
+(* collect_exports keeps exactly the definitions marked pub (the two guards come from the source) *)
+Lemma pub_names_pub : forall m n, In n (pub_names m) <->
+  exists d, In d (m_defs m) /\ d_name d = n /\ d_pub d = true.
+Proof.
+  intros m n. unfold pub_names. rewrite in_map_iff. split.
+  - intros (d & Hn & Hd). apply filter_In in Hd as [Hd He]. exists d. split; [exact Hd|]. split; [exact Hn|].
+    unfold exported in He. destruct (d_fn d); exact He.
+  - intros (d & Hd & Hn & Hp). exists d. split; [exact Hn|]. apply filter_In. split; [exact Hd|].
+    unfold exported. destruct (d_fn d); rewrite Hp; apply orb_true_r.
+Qed.
+
+(* every bare name a top level knows is its own or a definition marked pub in a module one of its
+   imports means *)
 Lemma known_are_pub_lemma : forall fs E fuel evs, run fs E fuel = Ok evs -> forall ev m, In ev evs ->
   find_file fs (ev_file ev) = Some m -> no_std_imports m -> nonempty_symbols m ->
   forall n, In n (ev_known ev) ->
     In n (map d_name (m_defs m)) \/
-    exists j g fm mg, In j (m_imports m) /\ meaning fs (dir_of E) (ev_file ev) j = Some (g, fm) /\
-                      find_file fs g = Some mg /\ In n (pub_names mg).
+    exists j g fm mg d, In j (m_imports m) /\ meaning fs (dir_of E) (ev_file ev) j = Some (g, fm) /\
+                        find_file fs g = Some mg /\ In d (m_defs mg) /\ d_name d = n /\ d_pub d = true.
 Proof.
   intros fs E fuel evs Hrun ev m Hev Hm Hns Hne n Hn.
   destruct (visibility_lemma fs E fuel evs Hrun ev Hev) as [Hnames Hpub].
   destruct (Hnames m Hm Hns Hne) as [_ HK]. apply HK in Hn as [Hn|(j & Hj & Hn)]; [left; exact Hn|].
   right. destruct (Hpub m j Hm Hj (Hns j Hj)) as (g & fm & mg & Hmean & Hmg & Hsy).
-  exists j, g, fm, mg. split; [exact Hj|]. split; [exact Hmean|]. split; [exact Hmg|].
-  unfold granted_bare in Hn. rewrite Hmean, Hmg in Hn.
-  destruct fm as [|a|l|]; try exact Hn; [destruct Hn | eapply Hsy; eauto].
+  assert (Hp : In n (pub_names mg)).
+  { unfold granted_bare in Hn. rewrite Hmean, Hmg in Hn.
+    destruct fm as [|a|l|]; try exact Hn; [destruct Hn | eapply Hsy; eauto]. }
+  apply pub_names_pub in Hp as (d & Hd & Hdn & Hdp).
+  exists j, g, fm, mg, d. auto 10.
 Qed.
 
 (* a qualifier that no import grants names nothing *)
@@ -1116,14 +1767,14 @@ Qed.
 (* non-vacuity: a diamond with all import forms initialises in post-order; a 6-cycle behind a
    tail is reported; both trees are clean *)
 Lemma nonvacuous_lemma :
-  clean_b w_diamond [] = true /\
+  clean_b w_diamond [] = true /\ unique_defs w_diamond = true /\ quals_ok_b w_diamond [] = true /\
   (exists evs, run w_diamond E9 (fuel_bound w_diamond) = Ok evs /\
                map ev_file evs = [[19]; [10]; [11]; [12]; [9]]) /\
   clean_b w_cycle6 [] = true /\
   reachable w_cycle6 E9 [11] /\ path_plus w_cycle6 E9 [11] [11] /\
   (exists tr, run w_cycle6 E9 (fuel_bound w_cycle6) = Err ECircular tr /\ map ev_file tr = [[19]]).
 Proof.
-  split; [reflexivity|].
+  split; [reflexivity|]. split; [reflexivity|]. split; [reflexivity|].
   split. { eexists. split; vm_compute; reflexivity. }
   split; [reflexivity|].
   split. { eapply r_step; [eapply r_step; [apply r_refl | solve_edge] | solve_edge]. }
